@@ -226,6 +226,17 @@ Example ex_interleaved :
   = [([0; 2]%nat, false); ([1; 3]%nat, true)]
   /\ map c_callee (calls (xrun ex_xls (init 0 2))) = [0; 1; 1; 0]%nat.
 Proof. split; vm_compute; reflexivity. Qed.
+(* multi_call with T = 3 ms and replies scripted at 1 ms and 4 ms: the vector is due AT T, the late
+   slot is Timeout; the oracle rejects a vector that comes back later than T with the late reply *)
+Example ex_multi_timeout :
+  o_groups (observe 2 [OMulti [0; 1]%nat (Some 3000000); OSettle; OAdv 1000000; OAct 0 (mkPlan [] (AReply 70)); OSettle;
+                       OAdv 3000000; OAct 1 (mkPlan [] (AReply 71)); OSettle; OAdv 4000000])
+  = [(GOk [OSuccess 70; OTimeout] 3000000, [0; 1]%nat)]
+  /\ check_C09 2 [OMulti [0; 1]%nat (Some 3000000); OSettle; OAdv 1000000; OAct 0 (mkPlan [] (AReply 70)); OSettle;
+                  OAdv 3000000; OAct 1 (mkPlan [] (AReply 71)); OSettle; OAdv 4000000]
+       (mkObs [mkOC OPending 0 0 true (Some 3000000) 0 None; mkOC OPending 0 0 true (Some 3000000) 1 None]
+              [(GOk [OSuccess 70; OSuccess 71] 4000000, [0; 1]%nat)] [] [true; true]) = false.
+Proof. split; vm_compute; reflexivity. Qed.
 Example ex_forward :
   o_fwds (observe 2 [OFwd 0 1 None; OSettle; OAct 0 (mkPlan [] (AReply 60))]) = [(0%nat, 60, 0, true)]
   /\ o_fwds (observe 2 [OFwd 0 1 None; OSettle; OAct 0 (mkPlan [] ADrop)]) = [].
